@@ -116,6 +116,8 @@ type Exec struct {
 	maxPaths int
 	merges   int
 	noMerge  bool
+	initMode bool
+	initMaps map[int64]bool
 	entry    *State        // state at entry of the root function (old())
 	rootVars map[string]TV // ghost/let bindings of the root contract
 	deadline time.Time
@@ -281,7 +283,7 @@ func (ex *Exec) get(fr *Frame, v ssa.Value) Value {
 	case *ssa.Global:
 		return ex.eng.globalAddr(x)
 	case *ssa.Function:
-		return &FuncV{Fn: x}
+		return &FuncV{Fn: x, Sym: ex.eng.funcID(x)}
 	case *ssa.Builtin:
 		return &FuncV{Fn: x}
 	}
@@ -546,7 +548,14 @@ func (ex *Exec) step(fr *Frame, in ssa.Instruction, st *State) {
 	case *ssa.MakeSlice:
 		ex.makeSlice(fr, x, st)
 	case *ssa.MakeMap:
-		fr.regs[x] = st.FreshRegion()
+		m := st.FreshRegion()
+		if ex.initMode {
+			if ex.initMaps == nil {
+				ex.initMaps = map[int64]bool{}
+			}
+			ex.initMaps[*st.nextRg] = true
+		}
+		fr.regs[x] = m
 	case *ssa.MapUpdate:
 		ex.mapUpdate(fr, x, st)
 	case *ssa.Lookup:
@@ -556,7 +565,11 @@ func (ex *Exec) step(fr *Frame, in ssa.Instruction, st *State) {
 		for _, b := range x.Bindings {
 			bs = append(bs, ex.get(fr, b))
 		}
-		fr.regs[x] = &FuncV{Fn: x.Fn.(*ssa.Function), Bindings: bs}
+		fv := &FuncV{Fn: x.Fn.(*ssa.Function), Bindings: bs}
+		if len(bs) == 0 {
+			fv.Sym = ex.eng.funcID(x.Fn.(*ssa.Function))
+		}
+		fr.regs[x] = fv
 	case *ssa.Range:
 		fr.regs[x] = ex.rangeInit(fr, x, st)
 	case *ssa.Next:
@@ -1163,3 +1176,6 @@ func divByConst(st *State, x, c *Term, signed bool) (q, r *Term, ok bool) {
 	}
 	return q, r, true
 }
+
+func deadlineIn(sec int) time.Time { return time.Now().Add(time.Duration(sec) * time.Second) }
+func bigInt(n int64) *big.Int       { return big.NewInt(n) }
